@@ -422,21 +422,23 @@ func runC04(w *World, r *Report) {
 				}
 			}
 		})
-		if helper == nil {
-			undecidedf("C04.dynamic-retype-checked: ConcatItems calls no retyping helper that builds a slice with reflect.MakeSlice")
-		}
+		// no retyping helper at all: C04.any-chunks-by-dynamic-type reports that; this rule is then left to its floor
 		cmp := false
-		instrs(helper, func(in ssa.Instruction) {
-			b, ok := in.(*ssa.BinOp)
-			if !ok || !(b.Op == token.EQL || b.Op == token.NEQ) {
-				return
-			}
-			isRT := func(v ssa.Value) bool { return v.Type().String() == "reflect.Type" && !isNilConst(v) }
-			if isRT(b.X) && isRT(b.Y) {
-				cmp = true
-			}
-		})
-		r.Check(cmp, "C04.dynamic-retype-checked", helper.Name()+" compares the chunks' dynamic types", helper.Pos(), "a reflect.Type == / != reflect.Type test in the helper", "the typed slice is built from the first chunk's type and the others are Set into it unchecked: a stream-only node with output `any` that emits a string chunk and then an int chunk makes reflect.Value.Set panic — recovered inside a node task (Invoke: an error), escaping from Collect at top level or from a stream in front of a branch")
+		if helper != nil {
+			instrs(helper, func(in ssa.Instruction) {
+				b, ok := in.(*ssa.BinOp)
+				if !ok || !(b.Op == token.EQL || b.Op == token.NEQ) {
+					return
+				}
+				isRT := func(v ssa.Value) bool { return v.Type().String() == "reflect.Type" && !isNilConst(v) }
+				if isRT(b.X) && isRT(b.Y) {
+					cmp = true
+				}
+			})
+		}
+		if helper != nil {
+			r.Check(cmp, "C04.dynamic-retype-checked", helper.Name()+" compares the chunks' dynamic types", helper.Pos(), "a reflect.Type == / != reflect.Type test in the helper", "the typed slice is built from the first chunk's type and the others are Set into it unchecked: a stream-only node with output `any` that emits a string chunk and then an int chunk makes reflect.Value.Set panic — recovered inside a node task (Invoke: an error), escaping from Collect at top level or from a stream in front of a branch")
+		}
 	}
 
 	shareRule(w, r, "C04.array-merge-owns-its-array", "merging array-backed readers starts from a slice of its own, never from the first reader's array: spare capacity of a producer's slice is shared by every reader made from it, so two fan-in nodes fed by one array-backed stream would overwrite each other's partner chunks in the stream paradigms only", 1, "C08", "C08.array-alias")
